@@ -122,7 +122,7 @@ static std::string run_hm_dst(int kind, const std::vector<int64_t>& dstv, const 
 			arm_kind(kd, k);
 			std::string st = "S";
 			try { src.MergeTo(dst.set); }
-			catch (const kit::InjectedAlloc&) { st = "Ea"; } catch (const kit::InjectedCopy&) { st = "Ec"; } catch (const kit::InjectedFunc&) { st = "Ef"; }
+			catch (const std::bad_alloc&) { st = "Ea"; } catch (const kit::InjectedCopy&) { st = "Ec"; } catch (const kit::InjectedFunc&) { st = "Ef"; }
 			bool f = fired(kd);
 			kit::W().disarm();
 			std::string tr = value_trace();
@@ -186,7 +186,7 @@ static std::string run_tm_dst(int kind, const std::vector<int64_t>& dstv, const 
 			arm_kind(kd, k);
 			std::string st = "S";
 			try { src.set.MergeTo(dst.set); }
-			catch (const kit::InjectedAlloc&) { st = "Ea"; } catch (const kit::InjectedCopy&) { st = "Ec"; } catch (const kit::InjectedFunc&) { st = "Ef"; }
+			catch (const std::bad_alloc&) { st = "Ea"; } catch (const kit::InjectedCopy&) { st = "Ec"; } catch (const kit::InjectedFunc&) { st = "Ef"; }
 			bool f = fired(kd);
 			kit::W().disarm();
 			kit::W().logging = false;
@@ -271,7 +271,7 @@ static std::string run_xi(const std::vector<std::string>& w)
 				hold = ext.IsEmpty() ? "none" : std::to_string(ext.GetItem().Value());
 				kit::W().ev("H");
 			}
-			catch (const kit::InjectedAlloc&) { st = "Ea"; } catch (const kit::InjectedCopy&) { st = "Ec"; } catch (const kit::InjectedFunc&) { st = "Ef"; }
+			catch (const std::bad_alloc&) { st = "Ea"; } catch (const kit::InjectedCopy&) { st = "Ec"; } catch (const kit::InjectedFunc&) { st = "Ef"; }
 			bool f = fired(kd);
 			kit::W().disarm();
 			std::string tr = value_trace();
